@@ -58,12 +58,18 @@ ASSUMPTIONS = [
 NEWISH = ("NEW", "NEWRESOLVE", "SUCCEEDED")
 
 
+# the statement quantifies over "detached ... even if that circuit closed first": opt in to the extra world op
+WEIGHTS = dict(torworld.DEFAULT_WEIGHTS, s_detach_doomed=2)
+
+
 def cases():
     return st.builds(lambda m, p, s: {"modern": m, "pre": p, "steps": s},
                      st.booleans(),
-                     st.one_of(st.just([]), torworld.steps(max_size=12), torworld.steps(max_size=30)),
-                     st.one_of(torworld.steps(max_size=15), torworld.steps(min_size=20, max_size=60),
-                               torworld.steps(min_size=20, max_size=60)))
+                     st.one_of(st.just([]), torworld.steps(max_size=12, weights=WEIGHTS),
+                               torworld.steps(max_size=30, weights=WEIGHTS)),
+                     st.one_of(torworld.steps(max_size=15, weights=WEIGHTS),
+                               torworld.steps(min_size=20, max_size=60, weights=WEIGHTS),
+                               torworld.steps(min_size=20, max_size=60, weights=WEIGHTS)))
 
 
 # --------------------------------------------------------------------------- oracle
